@@ -53,6 +53,28 @@ CHECKS['C06'] = dict(
    technique='contract-based deductive verification of the verifier/hook protocol + bounded runtime contracts for record-level semantics',
    design_ref='DESIGN.md 5 C06')
 
+CHECKS['C10'] = dict(
+   category='proof',
+   text='_should_regenerate, set_regeneration, the three reference writers and the seven assertion methods of the real '
+        'referencetest.py are executed symbolically against frame conditions taken from the property: in normal mode no write '
+        'reaches the reference (only callees confined to tmp_dir may write), in regeneration mode exactly the resolved reference '
+        'path(s) are written, the regeneration table is never written by an assertion, set_regeneration updates one key. '
+        'argv -> table and regenerate-then-check are decided by the bounded layer (labelled) over the spelling family and generated contents.',
+   note='Trusted: effect table A-fs, assumed frames of FilesComparison/PandasComparison callees (C15), path resolution as a function, '
+        'pyvc encoding, z3. Bounded: argv length <= 3/4, contents listed in bounded/reftest_bounded.py.',
+   technique='contract-based deductive verification with ghost write sets (frame conditions) + bounded runtime contracts',
+   design_ref='DESIGN.md 5 C10')
+CHECKS['C19'] = dict(
+   category='other',
+   text='Mixed. Proved on the real code: the tag decorator marks and returns its argument; _run_tests hands unittest the tagged '
+        'loader exactly when tagged or check is set, with the listing flag. Bounded (labelled): _set_flags_from_argv against a '
+        'reference parser on every judgeable sequence of <= 3 (quick) / 4 (thorough) tokens from 20 spellings; tag selection and '
+        'listing on generated test modules (tagged/untagged methods and classes, inheritance) x 22 argv forms run in-process with a side-effect log.',
+   note='Trusted: unittest loader/main semantics. The argv scanner is a per-character string loop outside the SMT subset: bounded only. '
+        'Argument orders the documents do not fix are not judged (listed in the evidence).',
+   technique='contract-based deductive verification of loader selection + bounded exhaustive enumeration of the argv family and generated modules',
+   design_ref='DESIGN.md 5 C19')
+
 NA_REASON = 'check under construction in this session (see DESIGN.md 8, build order)'
 
 def main():
